@@ -179,6 +179,27 @@ func (rw *rewriter) run() {
 		}
 		rw.changed = true
 	}
+	// R8: a call on a *badger.DB is an access to shared external state: scheduling point before it
+	ast.Inspect(rw.file, func(n ast.Node) bool {
+		call, ok := n.(*ast.CallExpr)
+		if !ok {
+			return true
+		}
+		sel, ok := call.Fun.(*ast.SelectorExpr)
+		if !ok {
+			return true
+		}
+		tv, ok := rw.info.Types[sel.X]
+		if !ok || tv.Type == nil {
+			return true
+		}
+		if tv.Type.String() == "*github.com/dgraph-io/badger.DB" {
+			sel.X = vcall("DBPoint", sel.X)
+			rw.needVS = true
+			rw.changed = true
+		}
+		return true
+	})
 	// statements
 	ast.Inspect(rw.file, func(n ast.Node) bool {
 		switch b := n.(type) {
